@@ -40,7 +40,10 @@ def get_inherited(t: Type) -> Type:
 
     g_args = get_args(t)
     if len(g_args) > 0:
-        mapping = {a.__name__: v for a, v in zip(r.__parameters__, g_args)}
+        # The arguments are those of `t`'s own class, in the order it declares its parameters
+        # (the base may mention them in another order, or only some of them).
+        own_parameters = getattr(get_origin(t), "__parameters__", r.__parameters__)
+        mapping = {a.__name__: v for a, v in zip(own_parameters, g_args)}
 
         r_base = get_origin(r)
         assert r_base is not None, "Internal error"
